@@ -62,12 +62,16 @@ def any_dependency_to_module_other_than(
     # should submodules of the dependent module import each other, this does not count as a dependency
     nodes_that_do_not_fulfill_criterion = get_all_submodules_of(graph, dependent)
 
+    # modules of the dependent itself are always analysed, even if they are also part of a dependent upon module
+    nodes_not_to_analyse = nodes_to_exclude - nodes_that_do_not_fulfill_criterion
+
     if dependent.identifier_is_parent_module:
         # if the parent module is set and has a dependency other than dependent upon, it should not count as only
         # the dependent and its submodules should be considered
         # Example: if we are looking for imports by A.X, we do not care if A itself imports something
         # (but we do care if A.X.M (submodule of A.X) imports something, as this is part of A.X)
         nodes_to_exclude.add(dependent.identifier)
+        nodes_not_to_analyse.add(dependent.identifier)
 
     for dependent_upon in dependent_upons:
         if dependent_upon.identifier_is_parent_module:
@@ -89,7 +93,7 @@ def any_dependency_to_module_other_than(
         if node in checked_nodes:
             continue
 
-        if node in nodes_to_exclude:
+        if node in nodes_not_to_analyse:
             continue
 
         checked_nodes.add(node)
